@@ -757,6 +757,7 @@ func runC14(c *Ctx) {
 	ruleOptsPointerFresh(c)
 	ruleXtextDecodesEveryPlus(c)
 	rulePathBytesPassThrough(c)
+	ruleCapsTable(c)    // an enabled extension is advertised under every configuration: the client drops options of unadvertised ones silently
 	ruleParserCursor(c) // the parameters that follow the path reach parseArgs as they were sent
 	ruleZeroOptions(c)
 	ruleSetOptionsRendered(c)
